@@ -469,11 +469,26 @@ def run_unit(unit_name, tier, seed, workdir=None):
     # Functions whose text the verifier rejects (unsupported construct after a source change) are replaced by
     # external_body stubs carrying their contract, so that the rest of the unit is still decided; the
     # obligations of the stubbed function itself are reported as undecided, never as discharged.
+    helpers = {}
     for _round in range(6):
-        g = gen.generate(unit_name, force_stub=tuple(unverifiable), workdir=workdir)
+        g = gen.generate(unit_name, force_stub=tuple(unverifiable), workdir=workdir, extra_helpers=tuple(helpers.values()))
         probe = verify.run_verus(g['path'], 0, rl, 8, ['--no-verify'])
         pc = verify.classify(g, probe)
         bad = {}
+        added = False
+        if g['unit'].get('auto_helpers'):
+            # units whose obligations do not depend on what a helper returns (interleaving units): a receiver-less helper the
+            # code now calls is pulled in from the same source file, without a contract, instead of giving the caller up
+            for t in pc['tool_errors']:
+                mh = re.search(r'cannot find function `(\w+)` in this scope|cannot call function `(?:\w+::)*(\w+)` with mode spec', t.get('message', ''))
+                hn = mh and (mh.group(1) or mh.group(2))
+                if hn and hn not in helpers:
+                    h = gen.find_free_helper(g['unit'], hn)
+                    if h is not None:
+                        helpers[hn] = h
+                        added = True
+        if added:
+            continue
         for t in pc['tool_errors']:
             if t.get('kind') in ('rustc', 'tool') and t.get('line'):
                 for ln in t.get('lines') or [t['line']]:
